@@ -466,14 +466,14 @@ Why(e) ==
     ELSE e.op
 
 TInit == /\ l = 1 /\ skip = FALSE /\ bad = <<>>
-         /\ hs = [h \in HIDS |-> Free] /\ cont = [c \in 0..63 |-> NewContent] /\ files = [f \in FIDS |-> NoFile]
+         /\ hs = [h \in HIDS |-> Free] /\ cont = [c \in 0..767 |-> NewContent] /\ files = [f \in FIDS |-> NoFile]
          /\ ncid = 0 /\ cfg = [idx |-> -1] /\ fault = FALSE /\ nscn = 0 /\ nev = 0
          /\ closed = <<>> /\ nclose = 0 /\ canon = <<>> /\ aux = [chexp |-> <<>>]
 
 TNext ==
     /\ l <= Len(Tr) /\ l' = l + 1
     /\ IF Ev.op = "reset" THEN
-            /\ hs' = [h \in HIDS |-> Free] /\ cont' = [c \in 0..63 |-> NewContent] /\ files' = [f \in FIDS |-> NoFile]
+            /\ hs' = [h \in HIDS |-> Free] /\ cont' = [c \in 0..767 |-> NewContent] /\ files' = [f \in FIDS |-> NoFile]
             /\ ncid' = 0 /\ cfg' = Ev.cfg /\ fault' = FALSE /\ skip' = FALSE /\ nscn' = nscn + 1
             /\ closed' = <<>> /\ nclose' = 0 /\ aux' = [chexp |-> <<>>]
             /\ UNCHANGED <<bad, nev, canon>>
